@@ -210,7 +210,7 @@ def gen_identity():
         st.builds(lambda A, k, i: {"kind": "caret", "A": A, "B": ["n", "a"], "k": k, "intercept": i}, e, st.integers(1, 3), st.booleans()),
         st.builds(
             lambda xs, k, i: {"kind": "power", "A": ["n", "a"], "B": ["n", "a"], "xs": xs, "k": k, "intercept": i},
-            st.lists(st.sampled_from(G.NAMES + ["`a b`", "log(a)", "`u:v`", "x1", "zz"]), min_size=1, max_size=5, unique=True),
+            st.lists(st.sampled_from(G.NAMES + ["`a b`", "log(a)", "`a:b`", "x1", "zz"]), min_size=1, max_size=5, unique=True),
             st.integers(1, 4),
             st.booleans(),
         ),
